@@ -27,8 +27,27 @@ def _shard(rng):
     return b - a, nbad, bad, len(distinct)
 
 
+SEQ = (0, 1, 8, 10, 2003, 100000, 11090813, 11092003, 11092004, 11092005, 11092110, 11092111, 11092479, 11093312, P3 - 1)
+
+
+def check_seq(seq):
+    for i, c in enumerate(seq):
+        w = replay({"challenge": c})
+        if w:
+            return f"in call sequence {list(seq)} at #{i}: {w}"
+    return None
+
+
 def run(tier, seed):
+    import itertools
+
     loader.install_shims()
+    seq_bad, n_seq = [], 0
+    for seq in itertools.product(SEQ, repeat=3):
+        n_seq += 1
+        w = check_seq(seq)
+        if w and len(seq_bad) < 3:
+            seq_bad.append((list(seq), w))
     res = par.pmap(_shard, par.ranges(0, P3, par.WORKERS * 4))
     n = sum(r[0] for r in res)
     nbad = sum(r[1] for r in res)
@@ -37,14 +56,17 @@ def run(tier, seed):
     violations = [
         {"key": f"challenge:{c}", "what": replay({"challenge": c}), "case": {"challenge": c}} for c in firsts
     ]
+    for seq, w in seq_bad:
+        violations.append({"key": "hash-sequence", "what": w, "case": {"seq": seq}})
     coverage = {
-        "evaluations": n,
+        "call_sequences": n_seq,
+        "evaluations": n + n_seq,
         "distinct_nontrivial": n,
         "mismatching_challenges": nbad,
         "domain": [0, P3],
         "exhaustive": n == P3,
         "rule": "every challenge 0 <= c < 253^3 (each integer is a distinct case); hash compared with the truncating-"
-        "remainder reference; for c <= 11,092,110 additionally 0 <= hash < 253^4",
+        "remainder reference; for c <= 11,092,110 additionally 0 <= hash < 253^4; call_sequences: every ordered triple over 15 boundary challenges (hidden-state detection)",
         "samples": [{"challenge": c, "hash": h(c)} for c in (0, 1, 12345, 11092003, 11092004, 11092110, 11092479, P3 - 1)],
     }
     return {"coverage": coverage, "violations": violations}
@@ -53,6 +75,8 @@ def run(tier, seed):
 def replay(case):
     loader.install_shims()
     h = loader.lib("eolib.encrypt.server_verification_utils").server_verification_hash
+    if "seq" in case:
+        return check_seq([int(x) for x in case["seq"]])
     c = int(case["challenge"])
     v = h(c)
     if v != verification_hash(c):
